@@ -396,8 +396,25 @@ func init() {
 				}
 				off = &o
 			}
-			opts, _ := pairsToMap(m, "pairs")
+			opts, optSeq := pairsToMap(m, "pairs")
 			mp, merr := data.GoMapToMapping(opts)
+			if m.Bool("rawopts") {
+				// a Mapping as a parser hands it out: the pairs in the order given (wire order), not re-sorted
+				var body []byte
+				for _, kv := range optSeq {
+					body = append(body, byte(len(kv[0])))
+					body = append(body, kv[0]...)
+					body = append(body, '=', byte(len(kv[1])))
+					body = append(body, kv[1]...)
+					body = append(body, ';')
+				}
+				wire := append([]byte{byte(len(body) >> 8), byte(len(body))}, body...)
+				pm, _, perrs := data.ReadMapping(wire)
+				if len(perrs) > 0 {
+					return built{ok: false, err: "options: " + errStr(perrs[0])}.res(map[string]any{"opterr": true})
+				}
+				mp, merr = &pm, nil
+			}
 			if merr != nil || mp == nil {
 				return built{ok: false, err: "options: " + errStr(merr)}.res(map[string]any{"opterr": true})
 			}
